@@ -232,6 +232,30 @@ func runC04(c *Ctx) {
 	// a node is offered to the dispatcher (and its slot released) only when its job is over, Close included: a node
 	// that is still inside Close() would park the next job in its buffer while a later job starts elsewhere
 	c.ruleDecrementAfterClose("R04.9")
+	// what was taken out of a queue is never put back: an Enqueue appends behind everything accepted meanwhile
+	c.ruleNoRequeue("R04.10")
+}
+
+// ruleNoRequeue: the consuming side (the dispatcher goroutine, the completion callback, the pool goroutine) never
+// enqueues. A job that was dequeued and is put back with Enqueue lands behind every job accepted after it (and a
+// priority queue re-stamps its tie index): the dispatch order is no longer the acceptance order.
+func (c *Ctx) ruleNoRequeue(rule string) {
+	R := c.R
+	c.Rep.rule(rule, "E1 who-may-call", "no Enqueue on a bound queue is reachable from the dispatcher goroutine or the completion callback", 2)
+	for name, f := range map[string]*Func{"dispatcher goroutine": R.DispLoop, "completion callback": R.Completion} {
+		if f == nil {
+			c.Rep.undecided(rule, "-", name, "", name+" not resolved")
+			continue
+		}
+		hit := ""
+		for _, k := range []string{kEnqueueQ, kEnqueuePQ} {
+			if c.reachesSync(f, k) {
+				hit = shortKey(k)
+			}
+		}
+		c.Rep.check(hit == "", rule, f.Short(), name+" re-enqueues", c.P.pos(f.Body), name+" never reaches Enqueue",
+			"the "+name+" can reach "+hit+": a job that was already taken out of its queue is appended again behind the jobs accepted meanwhile, so jobs are started out of their queue order")
+	}
 }
 
 func (c *Ctx) ruleComparatorTable(rule string, r *pqRoles) {
